@@ -19,7 +19,7 @@ def cases(tier):
                 # randomize: utilities on a 16-step grid with a full-range symbolic r decide in minutes; full-range float
                 # utilities as well is a thorough-tier query (may end without a verdict, which is reported as such)
                 L.append(fsm_case('C12', fx, '%s_grid_d%d' % (nm, dest), defs + ['C12_GRID=16'], timeout=900 * T, witness=True, solvers=('kissat', 'cadical')))
-                if tier == 'thorough': L.append(fsm_case('C12', fx, '%s_full_d%d' % (nm, dest), defs, timeout=3000, witness=False, solvers=('kissat', 'cadical')))
+                if tier == 'thorough': L.append(fsm_case('C12', fx, '%s_full_d%d' % (nm, dest), defs, timeout=1500, witness=False, solvers=('kissat', 'cadical')))
     return L
 
 def run(tier, seed):
